@@ -993,6 +993,9 @@ func c30Run(t *testing.T, part string, mode int, sanity bool, nQuick, nThorough,
 	c := kit.Start(t, "C30", part)
 	defer c.Finish()
 	ncases, tip := c.N(nQuick, nThorough), c.N(tipQuick, tipThorough)
+	if c.Lane == "race" {
+		ncases = (ncases + 2) / 3 // the race detector slows the service and the loopback servers several times
+	}
 	c.Rule("each case is one catching-up node: real catchup.Service + universalBlockFetcher, real in-memory ledger behind the recording wrapper (some nodes start mid-chain), 2-5 adversary-controlled peers (loopback HTTP servers and unicast peers, in different peer classes) whose behaviour per request is drawn from (seed, case, peer, round, attempt): honest, another round's block (as is / relabelled), tampered payset under the original header, tampered payset with recomputed commitment, another round's certificate, truncated / duplicated / reordered votes, changed certificate or header fields, garbage / truncated / bit-flipped bytes, 404 / 500 / wrong content type / missing topic, hanging responses; PRNG response delays (optionally the lowest outstanding round answers last) release responses out of order; peers switch between honest and malicious phases; the node alternates pipelined sync() up to a moving horizon with fetchRound() by trusted certificate, in a fifth of the cases while an emulated agreement service writes blocks concurrently; every write attempt is judged by the recording ledger; distinct = distinct (write path, validate mode, set of attack kinds served for that round before it was written, whether responses for it arrived ahead of the ledger)")
 	c.Assume("lane 1 authenticator: a recording oracle approving exactly the honest (header hash, certificate) pair of a round, header-only like agreement.Certificate.Authenticate; certificates are synthetic (right round/digest, PRNG votes); the production authenticator over real certificates is not exercised here")
 	c.Assume("fetch timeouts are configured to 1 s (only bounds how long a hanging peer stalls a request); CatchupBlockValidateMode is " + strconv.Itoa(mode))
@@ -1036,10 +1039,11 @@ func c30Run(t *testing.T, part string, mode int, sanity bool, nQuick, nThorough,
 	wg.Wait()
 	c.Require("cases", int64(ncases))
 	c.Require("cases_reaching_tip", int64(ncases/2))
-	c.Require("responses_served_ahead_of_ledger", 20)
-	c.Require("attack:payset-tampered", 10)
-	c.Require("attack:other-round-relabelled", 5)
-	c.Require("attack:cert-of-other-round-relabelled", 5)
+	// thresholds scale with the number of cases of the part (observed rates are >= 4x these)
+	c.Require("responses_served_ahead_of_ledger", int64(max(5, ncases)))
+	c.Require("attack:payset-tampered", int64(max(2, ncases/3)))
+	c.Require("attack:other-round-relabelled", int64(max(1, ncases/8)))
+	c.Require("attack:cert-of-other-round-relabelled", int64(max(1, ncases/8)))
 	switch {
 	case sanity:
 		c.Require("sanity_writes_without_authentication_seen", 1)
@@ -1057,10 +1061,10 @@ func c30Run(t *testing.T, part string, mode int, sanity bool, nQuick, nThorough,
 }
 
 // default configuration (CatchupBlockValidateMode = 0): certificate and payset verified, AddBlock path
-func TestVerifC30Default(t *testing.T) { c30Run(t, "default", 0, false, 24, 400, 28, 48) }
+func TestVerifC30Default(t *testing.T) { c30Run(t, "default", 0, false, 24, 240, 28, 40) }
 
 // mode 12: additionally validates the block through the ledger and writes with AddValidatedBlock
-func TestVerifC30FullValidation(t *testing.T) { c30Run(t, "fullvalidation", 12, false, 8, 120, 24, 40) }
+func TestVerifC30FullValidation(t *testing.T) { c30Run(t, "fullvalidation", 12, false, 8, 80, 24, 32) }
 
 // mode 3: certificate and payset checks switched off by configuration; monitor sensitivity only
-func TestVerifC30SanityChecksOff(t *testing.T) { c30Run(t, "sanity-checks-off", 3, true, 6, 30, 20, 30) }
+func TestVerifC30SanityChecksOff(t *testing.T) { c30Run(t, "sanity-checks-off", 3, true, 6, 24, 20, 28) }
